@@ -3,7 +3,7 @@
 From Coq Require Import Permutation.
 From GV Require Import Base.Prelude SchemaOps.Schema SchemaOps.NatOrder SchemaOps.NatOrderProps
   SchemaOps.Sort SchemaOps.SortProps SchemaOps.Diff SchemaOps.DiffProps SchemaOps.Build SchemaOps.Sdl
-  SchemaOps.BuildProps.
+  SchemaOps.BuildProps SchemaOps.DiffSound.
 
 (* Sorting, for EVERY comparison of names: each container of [sort s] (type map, fields, arguments,
    enum values, union members, interfaces, input fields, directives, directive locations and
@@ -44,18 +44,36 @@ Theorem C19_extend_noop_identity : forall s ds, forallb is_executable ds = true 
 Proof. exact extend_noop_identity. Qed.
 Print Assumptions C19_extend_noop_identity.
 
-(* extend (build A) B = build (A ++ B) in any definition order of A and B, for extension documents
-   that add members to existing types of any kind, new types and new directives.
-   Partial: B contains no schema definition/extension (operation types are only tested),
-   directive extensions and directive-only extensions (@specifiedBy/@oneOf) are not modelled. *)
+(* extend (build A) B = build (A ++ B), in any definition order of A and of B, for every extension
+   document B (without a schema definition of its own) that adds fields, interfaces, union members,
+   enum values, input fields to existing types of any kind (several extensions per type allowed),
+   new types, new directives and - through schema extensions - operation types for roots the schema
+   does not have yet.  Side conditions: A does not extend a type that only B defines; B's new types
+   do not carry a conventional root name (build_ast_schema would adopt such a type as a root,
+   extend_schema does not).
+   Partial: directive extensions and directive-only type extensions (@specifiedBy/@oneOf on
+   `extend`) are not modelled. *)
 Theorem C19_extend_hom_partial : forall A B sA,
   build A = Some sA ->
-  members_only B = true ->
+  schema_defs B = [] ->
+  ops_wellformed (schema_ext_ops B) ->
+  (forall k n, In (k, n) (schema_ext_ops B) -> root_of k sA = None) ->
   (forall e t, In e (type_exts A) -> In t (type_defs B) -> t_name e <> t_name t) ->
   (forall t, In t (type_defs B) -> t_name t <> nQuery /\ t_name t <> nMutation /\ t_name t <> nSubscription) ->
   build (A ++ B) = Some (extend sA B).
-Proof. exact extend_hom. Qed.
+Proof. exact extend_hom_ops. Qed.
 Print Assumptions C19_extend_hom_partial.
+
+(* Each reported change of a membership kind has a witness in the two schemas: the named type /
+   directive / field / input field / enum value / union member / interface is present in one schema
+   and absent from the same container of the other (or the kinds of the two types differ).
+   Partial: [witness] constrains TYPE_REMOVED/ADDED, TYPE_CHANGED_KIND, DIRECTIVE_REMOVED/ADDED,
+   FIELD_REMOVED/ADDED, VALUE_REMOVED/ADDED, union member and interface removed/added, input field
+   added; the remaining kinds (type/default/description/argument changes) are tied by the mutants. *)
+Theorem C19_diff_sound_partial : forall leb a b c,
+  NoDup (map t_name (s_types a)) -> In c (diff leb a b) -> witness c a b = true.
+Proof. exact diff_sound. Qed.
+Print Assumptions C19_diff_sound_partial.
 
 (* non-vacuity: a well-formed two-type schema whose sort differs from it; an extension *)
 Definition ex_Q : typedef :=
@@ -81,9 +99,18 @@ Proof.
   repeat (split || constructor || (intro H; cbn in H; repeat (destruct H as [H|H]; try discriminate H); try contradiction)).
 Qed.
 
+(* the witness predicate is not trivially true, and a real removal is reported with its witness *)
+Example C19_example_witness :
+  witness (mkChange TYPE_REMOVED [nQuery]) ex_s ex_s = false
+  /\ witness (mkChange FIELD_REMOVED [nQuery; [98]]) ex_s ex_s = false
+  /\ let b := mkSchema None (Some nQuery) None None [ex_Q] [] in
+     map c_kind (diff natural_leb ex_s b) = [TYPE_REMOVED]
+     /\ witness (mkChange TYPE_REMOVED [[65]]) ex_s b = true.
+Proof. repeat split; reflexivity. Qed.
+
 Example C19_example_extend :
   let A := [DType ex_Q; DType ex_A] in
   let B := [DExtend (mkType 4 ([65]) None [] [] [] [mkEnumVal ([90]) None None] [] None false); DExecutable] in
-  exists sA, build A = Some sA /\ members_only B = true
+  exists sA, build A = Some sA /\ schema_defs B = []
              /\ map e_name (t_values (nth 1 (s_types (extend sA B)) ex_Q)) = [[89]; [88]; [90]].
 Proof. eexists. repeat split; reflexivity. Qed.
